@@ -477,3 +477,72 @@ def s7(facts, rep):
                     why = "no OpOutOfScope branch is decided by an equality"
         rep.check(ok_all, "S7", short, "scope-by-prefix-equality", "in %s an operation can be accepted without its key's leading bits having been compared for EQUALITY with a proven path (%s; only ordering / length comparisons decide): a key in a gap between proven terminals would be attributed to a neighbouring terminal" % (fn, why), site=body.span, detail="every accepted operation passes an ==/!=/starts_with comparison with a proven path")
     return n
+
+
+# ---- S11: a path is hashed with exactly one sibling per bit --------------------------------------------
+# `hash_path(node, bits, siblings)` consumes one sibling per bit, pairing them from the END of the bit slice; given fewer
+# siblings than bits it silently hashes a shorter suffix.  A verifier that claims a terminal at depth d but hashes fewer than
+# d - start bits proves a statement about a different (shallower) position than the one it records.  Rule: at every call of
+# hash_path in the verifiers, the number of siblings handed over and the length of the bit range are the same quantity:
+# with the range `bits[a..b]` and `siblings[..k]` (or a whole sibling vector of length k), either k is computed from exactly
+# b and a (k = b - a) or b from exactly a and k (b = a + k).  A count that also depends on anything else (a `min` with the
+# number of siblings available ..) breaks the equality.
+ITER_PLUMBING = ("rev", "copied", "cloned", "iter", "into_iter", "by_ref", "deref", "as_slice", "borrow", "as_ref")
+
+
+def s11(facts, rep):
+    panicfree._FACTS[0] = facts
+    n = 0
+    for body in facts.bodies.values():
+        if body.crate != "nomt_core" or "::tests::" in body.id:
+            continue
+        for b, t in body.calls():
+            if not (t.get("callee") or "").endswith("path_proof::hash_path") or body.is_cleanup(b) or len(t["args"]) < 3:
+                continue
+            short = body.id.split("::", 1)[1]
+            n += 1
+            # the bit range
+            S = E = None
+            for r in trace(body, t["args"][1]):
+                if r.kind == "call" and str(r.what).endswith("::index") and r.obj is not None and len(r.obj.get("args", [])) == 2:
+                    for rr in trace(body, r.obj["args"][1]):
+                        if rr.kind == "agg" and rr.obj is not None and "range::Range" in str(rr.what):
+                            fl = rr.obj.get("fields", [])
+                            S = panicfree.leaves(body, rr.obj["ops"][fl.index("start")]) if "start" in fl else set()
+                            E = panicfree.leaves(body, rr.obj["ops"][fl.index("end")]) if "end" in fl else None
+            # the sibling count: follow the iterator plumbing back to `x[..k]` or to a whole container
+            K = None
+            work, seen = [t["args"][2]], 0
+            while work and seen < 12 and K is None:
+                op = work.pop()
+                seen += 1
+                for r in trace(body, op):
+                    if r.kind not in ("call", "via") or r.obj is None or not r.obj.get("args"):
+                        if r.kind in ("param", "call", "via", "upvar") and K is None and r.kind == "param":
+                            K = {("len", key) for (k_, key) in panicfree.leaves(body, op) if k_ == "v"}
+                        continue
+                    m = str(r.what).rsplit("::", 1)[-1]
+                    if m == "index" and len(r.obj["args"]) == 2:
+                        for rr in trace(body, r.obj["args"][1]):
+                            if rr.kind == "agg" and rr.obj is not None and "range::RangeTo" in str(rr.what):
+                                fl = rr.obj.get("fields", [])
+                                K = panicfree.leaves(body, rr.obj["ops"][fl.index("end")])
+                            elif rr.kind == "agg" and rr.obj is not None and "range::RangeFull" in str(rr.what):
+                                work.append(r.obj["args"][0])
+                    elif m in ITER_PLUMBING:
+                        cont = {("len", key) for (k_, key) in panicfree.leaves(body, r.obj["args"][0]) if k_ == "v"}
+                        if m in ("iter", "into_iter", "deref", "as_slice") and cont and not any(str(x.what).endswith("::index") for x in trace(body, r.obj["args"][0]) if x.kind in ("call", "via")):
+                            K = cont
+                        else:
+                            work.append(r.obj["args"][0])
+            if E is None or K is None or S is None:
+                rep.notes.append("S11: the bit range / sibling count of hash_path at %s is not of the form bits[a..b] / siblings[..k]: not decided" % t.get("ln"))
+                continue
+
+            def nc(x):
+                return {y for y in x if y[0] != "c"}
+
+            S_, E_, K_ = nc(S), nc(E), nc(K)
+            ok = (K_ == (E_ | S_)) or (E_ == (S_ | K_))
+            rep.check(ok, "S11", short, "one-sibling-per-bit", "hash_path at %s is handed a sibling count that is not the length of the bit range it hashes (count depends on %s, range on %s): with fewer siblings than bits only a suffix of the claimed path is hashed, so a proof recorded for depth d verifies a statement about a shallower position" % (t.get("ln"), sorted(str(x[1][2:]) if x[0] != "len" else "len(%s)" % (x[1][2:],) for x in K_)[:4], sorted(str(x[1][2:]) if x[0] != "len" else "len(%s)" % (x[1][2:],) for x in (E_ | S_))[:4]), site=t.get("ln"), detail="count and range length at %s are the same quantity" % t.get("ln"))
+    return n
